@@ -13,6 +13,8 @@ import traceback
 sys.dont_write_bytecode = True
 sys.path.insert(0, os.path.dirname(os.path.abspath(__file__)))
 import lib  # noqa
+import warnings  # noqa
+warnings.filterwarnings('ignore')
 
 
 def main():
